@@ -276,6 +276,8 @@ func (r *Transport) readLoop() {
 				if reconnectErr := r.reconnect(tr); reconnectErr != nil {
 					r.mu.Unlock()
 					writeOrDone(r.ctx, &readRes{err: fmt.Errorf("reconnect cause[%v]: %w", err, reconnectErr)}, r.readResCh)
+					// 再接続の上限に達したため、以降のWriteもエラーにします。
+					r.cancel()
 					return
 				}
 				r.mu.Unlock()
